@@ -318,6 +318,10 @@ impl ScriptSub {
 
 impl Subscriber<St, Act> for ScriptSub {
     fn on_notify(&self, state: &St, action: &Act) {
+        // A user callback is an observable event of its own: the reducer context can be preempted
+        // right before it (after the store released the lock it snapshotted the subscriber list
+        // under), so it gets a scheduling point even though it performs no synchronisation.
+        verif_rt::thread::yield_now();
         log(Ev::Cb {
             kind: "notify",
             comp: self.id,
